@@ -24,6 +24,8 @@ def gen_sets(ctx):
         sets.append(ps)
     # more than 256 slices (constants beyond the first 256; divisors 3, 5, 17, 257 all exercised below index 130)
     sets.append(P.PSet({"many.bin": L.gen_content(rng, "random", 4 * 290 + 1), "z": L.gen_content(rng, "zeros", 12)}, 4, 3, g=3, tag=">256 slices"))
+    # many slices x many blocks: the coefficients c_i^e then run through a large part of the field (0xFFFF included from about 150 x 75 on)
+    sets.append(P.PSet({"dense.bin": L.gen_content(rng, "random", 4 * 200), "d2": L.gen_content(rng, "random", 37)}, 4, 100, g=2, tag="200+ slices x 100 blocks"))
     # a long relative name (deep directories)
     deep = "/".join(["d%02d_%s" % (i, "x" * 20) for i in range(12)]) + "/leaf.bin"
     sets.append(P.PSet({deep: L.gen_content(rng, "random", 30), "short": b"s"}, 4, 2, tag="long name (%d bytes)" % len(deep)))
